@@ -9,7 +9,7 @@ from . import addsweep as A
 
 FLAVOURS = ("san",)
 RULE = ("(a) dadd +-Nb over stdin batches: every weekday as start incl. Saturday/Sunday, "
-        "N in {1..30, 250..262, 1300..1310} both signs, representations ymd, yd, ymcw, ywd, ldn, "
+        "N in {1..30, 250..262, 1300..1310} plus every count 31..800 (spread over the 16 shards) and far random counts, both signs, representations ymd, yd, ymcw, ywd, ldn, "
         "mdn, bizda; expected = N-th Mon-Fri day strictly after/before the start, found by "
         "counting. (b) ddiff A B -f %db for B within +-45 days of A and far random B; expected = "
         "number of Mon-Fri days in the half-open interval (A,B], negated for B<A. (c) bizda "
@@ -61,7 +61,10 @@ def addb(ctx, shard, nshards):
     days, _ = A.pick_days(ctx, shard, nshards, None if ctx.thorough else 600, 400, "c07")
     sub.exhaustive = False
     durs = []
-    for k in KB:
+    # every count 31..800 is covered by one of the shards, both signs; a few far ones
+    rnd = random.Random(ctx.sub_seed("c07k", shard))
+    ks = KB + list(range(31 + shard, 800, nshards)) + [rnd.randrange(800, 200000) for _ in range(4)]
+    for k in ks:
         for s in (1, -1):
             durs.append((["%+db" % (s * k)], [(s * k, "b")]))
     for rep in REPS:
